@@ -37,6 +37,14 @@ def gen(rng, n=None, m=None):
             name = str(rng.choice(G1))
             gates.append((name, [int(rng.integers(0, n))], [float(x) for x in rng.uniform(-3.1, 3.1, size=NPAR.get(name, 0))]))
         else:
+            prev = [g for g in gates if len(g[1]) == 2]
+            if prev and rng.random() < 0.35:
+                # repetition family: the same gate type on the same pair again, orientation and/or angles possibly changed
+                pn, pq, pp = prev[int(rng.integers(0, len(prev)))]
+                qs = list(pq) if rng.random() < 0.4 else [pq[1], pq[0]]
+                par = list(pp) if rng.random() < 0.5 else [float(x) for x in rng.uniform(-3.1, 3.1, size=NPAR.get(pn, 0))]
+                gates.append((pn, qs, par))
+                continue
             name = str(rng.choice(G2))
             q = int(rng.integers(0, n - 1))
             qs = [q, q + 1] if rng.random() < 0.5 else [q + 1, q]
@@ -131,7 +139,14 @@ def correspond(ctx):
             n, gates = structured(ctx.rng, n=int(ctx.rng.choice([6, 8])))
         else:
             n, gates = gen(ctx.rng, n=int(ctx.rng.integers(3, 8)), m=int(ctx.rng.integers(4, 16)))
-        gimpl.append(gauge_trace(n, gates))
+        okops = []
+        gimpl.append(gauge_trace(n, gates, okops))
+        ctx.count("two_qubit_operators_checked", len(okops))
+        if not all(okops):
+            bad = [j for j, ok in enumerate(okops) if not ok]
+            ctx.mismatch("operator handed to the windowed TDVP vs the unitary of the executed gate (name, angles, qubit order)",
+                         {"qubits": n, "gates": gates}, f"two-qubit gates number {bad} (execution order) get another operator", "every gate gets its own",
+                         key="operator")
         instrs = [(i, "G1" if len(qs) == 1 else "G2", qs, name, par) for i, (name, qs, par) in enumerate(gates)]
         gexprs.append(f"match run false (length {g_instrs(instrs)}) {g_instrs(instrs)} with Some (ex, _) => "
                       f"map snd (filter (fun p => match fst p with GTwo => true | _ => false end) (combine (gauge_word ex) (gauge_run true (gauge_word ex)))) | None => [] end")
@@ -152,7 +167,7 @@ def correspond(ctx):
             ctx.mismatch("digital_tjm schedule vs DigitalLoop.trajectory", {"qubits": n, "instrs": [list(x) for x in instrs]}, err or ev, mev)
 
 
-def gauge_trace(n, gates):
+def gauge_trace(n, gates, ops=None):
     """Real gates, real loop: before every two-qubit gate, is the state right-canonical (centre at site 0), as
     apply_window presupposes?  Returns the list of booleans in execution order."""
     import mqt.yaqs.digital.digital_tjm as D
@@ -161,21 +176,48 @@ def gauge_trace(n, gates):
 
     from drivers.C11 import centre_of
 
-    log = []
-    real2 = D.apply_two_qubit_gate
+    log, cur = [], {}
+    real2, realw = D.apply_two_qubit_gate, D.apply_window
 
-    def g2(state, node, sp):
+    def g2(state, node, sp, *extra, **kw):
         log.append(0 in centre_of(state))
-        return real2(state, node, sp)
+        cur["node"] = node
+        return real2(state, node, sp, *extra, **kw)
 
-    D.apply_two_qubit_gate = g2
+    def win(state, mpo, first, last, size, *extra, **kw):
+        out = realw(state, mpo, first, last, size, *extra, **kw)
+        if ops is not None and "node" in cur:
+            ops.append(operator_matches(cur.pop("node"), out[1], out[2]))
+        return out
+
+    D.apply_two_qubit_gate, D.apply_window = g2, win
     try:
         p = StrongSimParams([Observable("z", 0)], show_progress=False, threshold=1e-13, max_bond_dim=64)
         with common.time_limit(120):
             D.digital_tjm((0, MPS(n, state="x+"), None, p, to_qiskit(n, gates)))
     finally:
-        D.apply_two_qubit_gate = real2
+        D.apply_two_qubit_gate, D.apply_window = real2, realw
     return log
+
+
+def operator_matches(node, short_mpo, window):
+    """Is exp(-i * generator handed to the windowed TDVP) the unitary of THIS gate (its own name, angles and qubit order),
+    embedded in the window?  The expected matrix comes from Qiskit for a one-gate circuit."""
+    import scipy.linalg
+    from qiskit import QuantumCircuit
+    from qiskit.quantum_info import Operator
+
+    w0, w1 = window
+    k = w1 - w0 + 1
+    qs = [node.qargs[0]._index - w0, node.qargs[1]._index - w0] if hasattr(node.qargs[0], "_index") else None  # noqa: SLF001
+    if qs is None:
+        return None
+    qc = QuantumCircuit(k)
+    qc.append(node.op, qs)
+    want = Operator(qc).reverse_qargs().data
+    got = scipy.linalg.expm(-1j * short_mpo.to_matrix())
+    ph = np.vdot(want.ravel(), got.ravel())
+    return bool(abs(abs(ph) - want.shape[0]) < 1e-8 * want.shape[0])
 
 
 def structured(rng, n=8):
@@ -206,6 +248,9 @@ def search(ctx):
         dict(n=2, gates=[("h", [0], []), ("cz", [0, 1], []), ("rx", [1], [0.7])], state="x+"),
         dict(n=2, gates=[("ry", [0], [0.9]), ("cp", [1, 0], [1.1]), ("h", [1], [])], state="x+"),
         dict(n=3, gates=[("h", [0], []), ("cx", [1, 0], []), ("cp", [1, 2], [0.3]), ("rxx", [2, 1], [0.4]), ("u", [2], [0.3, 0.2, 0.1])], state="y+"),
+        # the same gate type on the same pair in both orientations / with two angles (SWAP by three CX)
+        dict(n=2, gates=[("ry", [0], [0.8]), ("rx", [1], [0.3]), ("cx", [0, 1], []), ("cx", [1, 0], []), ("cx", [0, 1], [])], state="zeros"),
+        dict(n=4, gates=[("h", [1], []), ("ry", [2], [1.1]), ("cx", [2, 1], []), ("cx", [1, 2], []), ("rzz", [1, 2], [0.4]), ("rzz", [2, 1], [0.9])], state="x+"),
     ]
     plan = list(fixed)
     # start from the circuits on which model and implementation diverged
